@@ -25,6 +25,7 @@ type Target struct {
 	Provides []int    // provides = {"lang": these targets}: a dependent that requires "lang" gets them instead of this one
 	Requires bool     // requires = ["lang"]
 	PostAdd  [][2]int // post_build function: add_dep(target [0], dependency [1]) once this target is built
+	Touch    bool     // warm cases: the command (and its output) changes in the second invocation, so it is rebuilt
 }
 
 // Case is one generated repository plus one plz invocation.
@@ -35,6 +36,9 @@ type Case struct {
 	KeepGoing bool
 	BadPkg    []int // packages whose BUILD file has a syntax error
 	MissPkg   []int // packages that do not exist (a target in it is referenced)
+	// Warm: the repository is first built completely WITHOUT the failures and touches; the observed invocation is the
+	// second one, on the same plz-out (unchanged targets are not re-run; stale outputs of failed dependents remain).
+	Warm bool
 }
 
 func (c *Case) Label(i int) string { return fmt.Sprintf("//p%d:t%d", c.Targets[i].Pkg, i) }
@@ -102,8 +106,18 @@ func (c *Case) Encode() string {
 	for i, t := range c.Targets {
 		sl[i] = t.SleepMs
 	}
-	return fmt.Sprintf("deps=%s pk=%s roots=%s n=%d kg=%d fail=%s bad=%s miss=%s prov=%s req=%s late=%s sleep=%s", strings.Join(d, ";"), strings.Join(pk, ","),
-		ints(c.Roots), c.Par, kg, f, ints(c.BadPkg), ints(c.MissPkg), dash(prov), dash(req), dash(late), ints(sl))
+	var touch []int
+	for i, t := range c.Targets {
+		if t.Touch {
+			touch = append(touch, i)
+		}
+	}
+	warm := 0
+	if c.Warm {
+		warm = 1
+	}
+	return fmt.Sprintf("deps=%s pk=%s roots=%s n=%d kg=%d fail=%s bad=%s miss=%s prov=%s req=%s late=%s sleep=%s warm=%d touch=%s", strings.Join(d, ";"), strings.Join(pk, ","),
+		ints(c.Roots), c.Par, kg, f, ints(c.BadPkg), ints(c.MissPkg), dash(prov), dash(req), dash(late), ints(sl), warm, ints(touch))
 }
 
 // Decode parses what Encode wrote.
@@ -189,6 +203,19 @@ func Decode(s string) (*Case, bool) {
 			out = append(out, n)
 		}
 		return out, true
+	}
+	c.Warm = kv["warm"] == "1"
+	if v := kv["touch"]; v != "" && v != "-" {
+		ts, ok := ints(v)
+		if !ok {
+			return nil, false
+		}
+		for _, i := range ts {
+			if i >= len(c.Targets) {
+				return nil, false
+			}
+			c.Targets[i].Touch = true
+		}
 	}
 	if v := kv["sleep"]; v != "" && v != "-" {
 		sl, ok := ints(v)
@@ -318,6 +345,8 @@ type Result struct {
 	// Idle is, for a run killed at the limit, how long before the kill the last event was logged: a large value
 	// means plz sat there with nothing running (a hang), a small one that it was still working (a slow machine).
 	Idle time.Duration
+	// ReportedFailed: the targets plz lists as failed ("N targets failed:")
+	ReportedFailed []int
 }
 
 func intsIn(xs []int, x int) bool {
@@ -330,7 +359,10 @@ func intsIn(xs []int, x int) bool {
 }
 
 // Write creates the repository under dir/repo and returns the log path.
-func (c *Case) Write(dir string) (repo, log string, err error) {
+func (c *Case) Write(dir string) (repo, log string, err error) { return c.WritePhase(dir, 2) }
+
+// WritePhase writes the repository as it is for invocation 1 (warm cases: no failures, no touches) or 2.
+func (c *Case) WritePhase(dir string, phase int) (repo, log string, err error) {
 	repo, log = filepath.Join(dir, "repo"), filepath.Join(dir, "events.log")
 	cache := filepath.Join(dir, "cache")
 	for _, d := range []string{repo, cache, filepath.Join(dir, "home")} {
@@ -388,17 +420,22 @@ func (c *Case) Write(dir string) (repo, log string, err error) {
 				}
 				extra += fmt.Sprintf(", post_build=_pb%d", i)
 			}
-			if t.Fail == "undef" {
+			first := c.Warm && phase == 1
+			if t.Fail == "undef" && !first {
 				srcs = append(srcs, fmt.Sprintf("%q", fmt.Sprintf("//p%d:nosuch%d", t.Pkg, i)))
 			}
 			cmd := ev("S", i) + "; for f in $SRCS; do test -e $f || " + ev("M", i) + "; done"
-			if t.SleepMs > 0 {
+			if t.SleepMs > 0 && !first {
 				cmd += fmt.Sprintf("; sleep %.3f", float64(t.SleepMs)/1000)
 			}
-			if t.Fail == "exit" {
+			if t.Fail == "exit" && !first {
 				cmd += "; " + ev("F", i) + "; exit 1"
 			}
-			cmd += "; echo " + strconv.Itoa(i) + " > $OUT; " + ev("E", i)
+			content := strconv.Itoa(i)
+			if t.Touch && !first {
+				content += "-v2"
+			}
+			cmd += "; (cat $SRCS 2>/dev/null; echo " + content + ") > $OUT; " + ev("E", i)
 			fmt.Fprintf(&b, "genrule(name=%q, srcs=[%s], outs=[%q], cmd=%q, visibility=[\"PUBLIC\"]%s)\n",
 				fmt.Sprintf("t%d", i), strings.Join(srcs, ", "), fmt.Sprintf("t%d.out", i), cmd, extra)
 		}
@@ -418,11 +455,31 @@ func (c *Case) Run(plz, scratch string, id int, limit time.Duration) (*Result, e
 	dir := filepath.Join(scratch, fmt.Sprintf("case%d", id))
 	os.RemoveAll(dir)
 	defer os.RemoveAll(dir)
-	repo, log, err := c.Write(dir)
+	repo, log, err := c.WritePhase(dir, 2)
 	if err != nil {
 		return nil, err
 	}
 	home := filepath.Join(dir, "home")
+	if c.Warm {
+		if _, _, err := c.WritePhase(dir, 1); err != nil {
+			return nil, err
+		}
+		a1 := []string{"build", "-p", "-v", "error", "--noupdate", "-n", "8"}
+		for _, r := range c.Roots {
+			a1 = append(a1, c.Label(r))
+		}
+		c1 := exec.Command(plz, a1...)
+		c1.Dir = repo
+		c1.Env = []string{"HOME=" + home, "XDG_CACHE_HOME=" + home + "/.cache", "XDG_CONFIG_HOME=" + home + "/.config",
+			"PATH=/usr/local/bin:/usr/bin:/bin", "LC_ALL=C"}
+		if out, err := c1.CombinedOutput(); err != nil {
+			return nil, fmt.Errorf("warm-up build failed: %v: %s", err, out)
+		}
+		os.Remove(log)
+		if _, _, err := c.WritePhase(dir, 2); err != nil {
+			return nil, err
+		}
+	}
 	args := []string{"build", "-p", "-v", "error", "--noupdate", "-n", strconv.Itoa(c.Par)}
 	if c.KeepGoing {
 		args = append(args, "--keep_going")
@@ -473,6 +530,19 @@ func (c *Case) Run(plz, scratch string, id int, limit time.Duration) (*Result, e
 	}
 	res.Wall = time.Since(start)
 	res.Output = out.String()
+	seenRep := map[int]bool{}
+	for _, l := range strings.Split(res.Output, "\n") {
+		f := strings.TrimSpace(l)
+		if strings.HasPrefix(f, "//p") && !strings.Contains(f, " ") {
+			if j := strings.LastIndex(f, ":t"); j >= 0 {
+				if n, err := strconv.Atoi(f[j+2:]); err == nil && !seenRep[n] && n < len(c.Targets) {
+					seenRep[n] = true
+					res.ReportedFailed = append(res.ReportedFailed, n)
+				}
+			}
+		}
+	}
+	sort.Ints(res.ReportedFailed)
 	b, _ := os.ReadFile(log)
 	for _, l := range strings.Split(string(b), "\n") {
 		if l == "" {
@@ -514,6 +584,29 @@ type Violation struct{ Class, Detail string }
 func (c *Case) CheckLog(ev []Event) []Violation {
 	var v []Violation
 	started, ended, failed := map[int]int{}, map[int]bool{}, map[int]bool{}
+	everStarted := map[int]bool{}
+	for _, e := range ev {
+		if e.Kind == 'S' && e.T < len(c.Targets) {
+			everStarted[e.T] = true
+		}
+	}
+	// failedBelow: some transitive dependency of i has logged a failure so far
+	var failedBelow func(i int, seen map[int]bool) int
+	failedBelow = func(i int, seen map[int]bool) int {
+		for _, d := range c.EffDeps(i) {
+			if seen[d] {
+				continue
+			}
+			seen[d] = true
+			if failed[d] {
+				return d
+			}
+			if x := failedBelow(d, seen); x >= 0 {
+				return x
+			}
+		}
+		return -1
+	}
 	for pos, e := range ev {
 		if e.T >= len(c.Targets) {
 			v = append(v, Violation{"log-corrupt", fmt.Sprintf("event %d: %c%d", pos, e.Kind, e.T)})
@@ -525,14 +618,20 @@ func (c *Case) CheckLog(ev []Event) []Violation {
 			if started[e.T] > 1 {
 				v = append(v, Violation{"ran-twice", fmt.Sprintf("target %d started %d times", e.T, started[e.T])})
 			}
+			flagged := false
 			for _, d := range c.EffDeps(e.T) {
-				if !ended[d] {
-					cls := "started-before-dependency-finished"
-					if failed[d] {
-						cls = "started-after-dependency-failed"
-					}
-					v = append(v, Violation{cls, fmt.Sprintf("target %d started at event %d, dependency %d had not finished successfully", e.T, pos, d)})
+				if ended[d] || (c.Warm && !everStarted[d] && c.Targets[d].Fail == "") {
+					continue // built in this invocation, or (warm) up to date from the previous one
 				}
+				cls := "started-before-dependency-finished"
+				if failed[d] {
+					cls = "started-after-dependency-failed"
+				}
+				flagged = true
+				v = append(v, Violation{cls, fmt.Sprintf("target %d started at event %d, dependency %d had not finished successfully", e.T, pos, d)})
+			}
+			if x := failedBelow(e.T, map[int]bool{}); x >= 0 && !flagged {
+				v = append(v, Violation{"started-after-dependency-failed", fmt.Sprintf("target %d started at event %d although its (transitive) dependency %d had failed", e.T, pos, x)})
 			}
 		case 'E':
 			if started[e.T] == 0 || ended[e.T] || failed[e.T] {
